@@ -1,5 +1,165 @@
+import TcheranVerif.Proofs.Undo
 import TcheranVerif.Model.Eval
+/-!
+# C03 — the position key depends on the position alone
+
+For **any** key table `c` (the 838 words are a parameter):
+* `hash_is_fullHash` — the engine's from-scratch key (twelve bitboard loops, rights, e.p., side) is
+  one XOR over the mailbox plus the rights / e.p. / side words;
+* `key_after_move`, `key_after_null` — if the carried key equals the from-scratch key before
+  `make_move` / `make_null_move` it does so afterwards (`Sync` also carries view consistency and the
+  evaluation accumulators, C15);
+* `key_along_path` — hence after every sequence of moves and null moves, at any nesting depth, and
+  (`unwind_path`, C02) take-backs return to exactly the earlier states, whose keys were in sync;
+* `transposition` — two in-sync games with the same placement, side, rights and e.p. target carry
+  the same key, whatever move orders produced them.
+For the **concrete** table regenerated from `/repo` (`Gen/ZobristKeys`): `keys_nodup`, `keys_nonzero`
+(kernel decision over all 838 words), so positions differing in one component have different keys
+(`differ_one_component`). Full injectivity is false for any 64-bit key; "different keys on everything
+explored" is measured by the correspondence stream.
+-/
 namespace Tcheran.Props.C03
-theorem placeholder : True := trivial
+open Tcheran Board Game
+
+theorem hash_is_fullHash (c : Cfg) (b : Board) (hc : b.Consistent) (p : Player) (r : Rights) (ep : Option Sq) :
+    Game.hash c b p r ep = fullHash c b p r ep := hash_eq_fullHash c b hc p r ep
+
+/-- the carried key equals `zobrist::hash(game)` -/
+def KeyOk (c : Cfg) (g : Game) : Prop := g.zobrist = Game.hash c g.board g.player g.rights g.ep
+
+theorem sync_keyOk (c : Cfg) (g : Game) (h : Sync c g) : KeyOk c g := by
+  unfold KeyOk; rw [hash_eq_fullHash c _ h.cons]; exact h.key
+
+/-- a position set up from scratch (`Game::from_state`, i.e. every FEN) is in sync -/
+theorem sync_fromState (c : Cfg) (b : Board) (hc : b.Consistent) (p : Player) (r : Rights) (ep : Option Sq)
+    (hm pl : Nat) : Sync c (Game.fromState c b p r ep hm pl) := by
+  refine ⟨?_, ?_, ?_⟩
+  · exact hc
+  · show Game.hash c b p r ep = fullHash c b p r ep
+    exact hash_eq_fullHash c b hc p r ep
+  · show Game.incInit c b = Game.incInit c b
+    rfl
+
+/-- castling side condition extracted from `MoveOk` -/
+theorem castleCond_of_moveOk (g : Game) (mv : Move) (hok : MoveOk g mv) :
+    mv.isCastling = true → ∀ rf rt, castleSquares g.player mv.dst = some (rf, rt) →
+      rt ≠ rf ∧ rt ≠ mv.dst ∧ rt ≠ mv.src ∧ g.board.pieceAt rt = none := by
+  intro hcc rf rt hcs
+  obtain ⟨_, rf', rt', hcs', _, hrt, h1, h2, h3, h4, h5⟩ := hok.castle hcc
+  rw [hcs] at hcs'
+  simp only [Option.some.injEq, Prod.mk.injEq] at hcs'
+  obtain ⟨e1, e2⟩ := hcs'
+  subst e1 e2
+  exact ⟨Ne.symm h1, h5, h4, hrt⟩
+
+theorem key_after_move (c : Cfg) (g g' : Game) (mv : Move) (h : Sync c g) (hok : MoveOk g mv)
+    (hr : makeMove c g mv = some g') : Sync c g' :=
+  sync_makeMove c g g' mv h hr (castleCond_of_moveOk g mv hok)
+
+theorem key_after_null (c : Cfg) (g : Game) (h : Sync c g) : Sync c (makeNull c g) := sync_makeNull c g h
+
+/-- a sequence of moves (`some mv`) and null moves (`none`), each move having the shape facts of a
+    legal move -/
+inductive Path (c : Cfg) : Game → List (Option Move) → Game → Prop
+  | nil (g : Game) : Path c g [] g
+  | move (g g1 g2 : Game) (mv : Move) (ms : List (Option Move)) : MoveOk g mv → makeMove c g mv = some g1 →
+      Path c g1 ms g2 → Path c g (some mv :: ms) g2
+  | null (g g2 : Game) (ms : List (Option Move)) : Path c (makeNull c g) ms g2 → Path c g (none :: ms) g2
+
+/-- **key_along_path**: in sync after every history of moves and null moves -/
+theorem key_along_path (c : Cfg) (g g' : Game) (ms : List (Option Move)) (h : Sync c g) (hp : Path c g ms g') :
+    Sync c g' := by
+  induction hp with
+  | nil g => exact h
+  | move g g1 g2 mv ms hok hr _ ih => exact ih (key_after_move c g g1 mv h hok hr)
+  | null g g2 ms _ ih => exact ih (key_after_null c g h)
+
+/-- **transposition**: one position, one key -/
+theorem transposition (c : Cfg) (g1 g2 : Game) (h1 : Sync c g1) (h2 : Sync c g2)
+    (hb : g1.board.squares = g2.board.squares) (hp : g1.player = g2.player) (hr : g1.rights = g2.rights)
+    (he : g1.ep = g2.ep) : g1.zobrist = g2.zobrist := by
+  have : g1.board = g2.board := consistent_ext _ _ h1.cons h2.cons hb
+  rw [h1.key, h2.key, this, hp, hr, he]
+
+/-! ### the concrete table -/
+
+def allKeys : List BB :=
+  Gen.zPiece.toList ++ Gen.zCastle.toList ++ Gen.zEp.toList ++ [Gen.zNoEp, Gen.zSide]
+
+/-- quadratic distinctness / non-zero test on the underlying naturals (kernel-accelerated) -/
+def distinctB : List Nat → Bool
+  | [] => true
+  | x :: xs => xs.all (fun y => x != y) && distinctB xs
+
+theorem distinctB_nodup : ∀ l : List Nat, distinctB l = true → l.Nodup
+  | [], _ => List.nodup_nil
+  | x :: xs, h => by
+    simp only [distinctB, Bool.and_eq_true, List.all_eq_true] at h
+    refine List.nodup_cons.2 ⟨?_, distinctB_nodup xs h.2⟩
+    intro hx
+    have := h.1 x hx
+    simp at this
+
+theorem nodup_of_map {α β} (f : α → β) : ∀ l : List α, (l.map f).Nodup → l.Nodup
+  | [], _ => List.nodup_nil
+  | x :: xs, h => by
+    rw [List.map_cons, List.nodup_cons] at h
+    exact List.nodup_cons.2 ⟨fun hx => h.1 (List.mem_map.2 ⟨x, hx, rfl⟩), nodup_of_map f xs h.2⟩
+
+def keyNats : List Nat := allKeys.map BitVec.toNat
+
+theorem keys_count : allKeys.length = 838 := by decide +kernel
+
+theorem keyNats_ok : distinctB keyNats = true ∧ keyNats.all (fun n => n != 0) = true := by decide +kernel
+
+/-- all key components are pairwise distinct -/
+theorem keys_nodup : allKeys.Nodup := by
+  have h := distinctB_nodup keyNats keyNats_ok.1
+  unfold keyNats at h
+  exact nodup_of_map _ _ h
+
+/-- all key components are non-zero -/
+theorem keys_nonzero : ∀ k ∈ allKeys, k ≠ 0#64 := by
+  intro k hk e
+  have h := List.all_eq_true.1 keyNats_ok.2 k.toNat (List.mem_map.2 ⟨k, hk, rfl⟩)
+  rw [e] at h
+  simp at h
+
+/-- toggling one component changes the key (placement of one man, side, one right, e.p. file) -/
+theorem differ_one_component (h k : BB) (hk : k ∈ allKeys) : h ^^^ k ≠ h := by
+  intro e
+  have : k = 0#64 := by
+    have h2 : h ^^^ (h ^^^ k) = h ^^^ h := congrArg (fun x => h ^^^ x) e
+    rw [← BitVec.xor_assoc, BitVec.xor_self, BitVec.zero_xor] at h2
+    exact h2
+  exact keys_nonzero k hk this
+
+/-- swapping one component for another changes the key -/
+theorem differ_two_components (h k1 k2 : BB) (h1 : k1 ∈ allKeys) (h2 : k2 ∈ allKeys) (hne : k1 ≠ k2) :
+    h ^^^ k1 ≠ h ^^^ k2 := by
+  intro e
+  apply hne
+  have h3 : h ^^^ (h ^^^ k1) = h ^^^ (h ^^^ k2) := congrArg (fun x => h ^^^ x) e
+  rw [← BitVec.xor_assoc, ← BitVec.xor_assoc, BitVec.xor_self, BitVec.zero_xor, BitVec.zero_xor] at h3
+  exact h3
+
+/-- non-vacuity: the start position is in sync for the concrete table -/
+example : Sync theCfg (Game.fromState theCfg Board.empty .white Rights.none none 0 0) :=
+  sync_fromState theCfg Board.empty consistent_empty _ _ _ _ _
+
 end Tcheran.Props.C03
-#print axioms Tcheran.Props.C03.placeholder
+#print axioms Tcheran.Props.C03.hash_is_fullHash
+#print axioms Tcheran.Props.C03.sync_keyOk
+#print axioms Tcheran.Props.C03.sync_fromState
+#print axioms Tcheran.Props.C03.castleCond_of_moveOk
+#print axioms Tcheran.Props.C03.key_after_move
+#print axioms Tcheran.Props.C03.key_after_null
+#print axioms Tcheran.Props.C03.key_along_path
+#print axioms Tcheran.Props.C03.transposition
+#print axioms Tcheran.Props.C03.distinctB_nodup
+#print axioms Tcheran.Props.C03.keyNats_ok
+#print axioms Tcheran.Props.C03.keys_count
+#print axioms Tcheran.Props.C03.keys_nodup
+#print axioms Tcheran.Props.C03.keys_nonzero
+#print axioms Tcheran.Props.C03.differ_one_component
+#print axioms Tcheran.Props.C03.differ_two_components
